@@ -1,6 +1,84 @@
 import TantivyModel.Driver.Proto
+import TantivyModel.Model.Sorted
+/-!
+Line protocol of the index-sorting model.
+
+keys  := comma separated, `n` = no value, otherwise the order-preserving u64 image (`-` = empty)
+ops:
+  `sortorder <asc|desc> <keys>`                    → new→old row ids
+  `mapping <asc|desc> <keys>`                      → `new→old/old→new`
+  `deletes <asc|desc> <keys> <matches bits> <opstamps> <delete opstamp>`
+        → new doc ids hit in the sorted segment `/` images of the old ids hit unsorted
+  `kmerge <asc|desc> <keys> <keys> …`              → merged key sequence
+  `stack <asc|desc> <min:max,…> <keys> <keys> …`   → `1`/`0` (stacking guard) `/` stacked keys
+-/
 namespace TantivyModel.Driver.C17
-/-- stub: the model for C17 is not built yet -/
+open TantivyModel TantivyModel.Proto TantivyModel.Sorted
+
+def parseDir (s : String) : Option Bool :=
+  if s == "asc" then some false else if s == "desc" then some true else none
+
+def parseKey (s : String) : Option SKey :=
+  if s == "n" then some none else s.toNat?.map some
+
+def parseKeys (s : String) : Option (List SKey) :=
+  if s == "-" then some [] else (s.splitOn ",").mapM parseKey
+
+def showKey : SKey → String
+  | none => "n"
+  | some v => toString v
+
+def showKeys (l : List SKey) : String :=
+  if l.isEmpty then "-" else ",".intercalate (l.map showKey)
+
+def parseBits (s : String) : Option (List Bool) :=
+  if s == "-" then some [] else
+  s.toList.mapM fun c => if c == '1' then some true else if c == '0' then some false else none
+
+def parseStats (s : String) : Option (List Stats) :=
+  if s == "-" then some [] else
+  (s.splitOn ",").mapM fun t => match t.splitOn ":" with
+    | [a, b] => match a.toNat?, b.toNat? with
+      | some a, some b => some (a, b)
+      | _, _ => none
+    | _ => none
+
+def toRun (i : Nat) (ks : List SKey) : Run := ks.zipIdx.map fun (k, d) => (k, i, d)
+
+def trueIdx (l : List Bool) : List Nat := (l.zipIdx.filter (·.1)).map (·.2)
+
 def handle : List String → String
+  | ["sortorder", d, ks] =>
+    match parseDir d, parseKeys ks with
+    | some d, some ks => showNatList (sortOrder ks d)
+    | _, _ => "bad-op"
+  | ["mapping", d, ks] =>
+    match parseDir d, parseKeys ks with
+    | some d, some ks =>
+      let n2o := sortOrder ks d
+      showNatList n2o ++ "/" ++ showNatList (oldToNewOf n2o)
+    | _, _ => "bad-op"
+  | ["deletes", d, ks, ms, os, t] =>
+    match parseDir d, parseKeys ks, parseBits ms, natList os, t.toNat? with
+    | some d, some ks, some ms, some os, some t =>
+      if ks.length = ms.length ∧ ks.length = os.length then
+        let n2o := sortOrder ks d
+        let o2n := oldToNewOf n2o
+        let sortedHits := trueIdx (deleteHits (remap n2o ms) (remap n2o os) t)
+        let unsortedHits := (trueIdx (deleteHits ms os t)).map fun o => o2n.getD o 0
+        showNatList sortedHits ++ "/" ++ showNatList ((unsortedHits.toArray.qsort (· < ·)).toList)
+      else "bad-op"
+    | _, _, _, _, _ => "bad-op"
+  | "kmerge" :: d :: runs =>
+    match parseDir d, runs.mapM parseKeys with
+    | some d, some runs => showKeys ((kmerge d (runs.zipIdx.map fun (ks, i) => toRun i ks)).map (·.1))
+    | _, _ => "bad-op"
+  | "stack" :: d :: st :: runs =>
+    match parseDir d, parseStats st, runs.mapM parseKeys with
+    | some d, some st, some runs =>
+      let rs := runs.zipIdx.map fun (ks, i) => toRun i ks
+      showBool (stackOk d st rs) ++ "/" ++ showKeys (rs.flatten.map (·.1))
+    | _, _, _ => "bad-op"
   | _ => "bad-op"
+
 end TantivyModel.Driver.C17
